@@ -96,6 +96,20 @@ Theorem C19_bp_no_overrun : forall (cpu : Type) (pc : cpu -> Z) (step : cpu -> c
 Proof. exact bp_no_overrun_adapter. Qed.
 Print Assumptions C19_bp_no_overrun.
 
+(* Breakpoints replaced at ANY time, also during a free run (the property's "any interleaving of client requests
+   (setBreakpoints, ...)").  `bp_ok_live` is the same monitor with one exemption: a setBreakpoints whose response is sent
+   while the machine thread is already past the breakpoint check of its current iteration exempts that one pending
+   instruction (it was checked against the list in force before the response).  For every program, every interleaving in
+   which the client only steps while stopped: from the moment a setBreakpoints response is sent, at most the instruction in
+   flight executes against the old list; no later instruction at an address of the acknowledged list executes without a
+   stop there first.  (S_set_bps takes the breakpoint mutex the machine thread takes inside every M_check_bp.) *)
+Theorem C19_bp_no_overrun_live : forall (cpu : Type) (pc : cpu -> Z) (step : cpu -> cpu) (fin : cpu -> bool)
+    (step_over step_out : cpu -> cpu) (c0 : cpu) (tr : list action),
+  steps_when_stopped cpu pc step fin step_over step_out adapter_reset_lcp adapter_protocol tr (init c0) = true ->
+  bp_ok_live cpu pc step fin step_over step_out adapter_reset_lcp adapter_protocol tr (init c0) false false = true.
+Proof. exact bp_no_overrun_live_adapter. Qed.
+Print Assumptions C19_bp_no_overrun_live.
+
 (* the general form: without the reset the theorem needs a program that never executes a one-instruction loop *)
 Theorem C19_bp_no_overrun_guarded : forall (cpu : Type) (pc : cpu -> Z) (step : cpu -> cpu) (fin : cpu -> bool)
     (step_over step_out : cpu -> cpu) (reset_lcp : bool) (c0 : cpu) (tr : list action),
@@ -306,4 +320,20 @@ Example C19_example_refused_while_launching :
   | Some (s, o) => rs s = Running /\ chan s = [] /\ o = [OError RPause; OError (RStep KOver); OError RContinue; OResp RConfigDone]
   | None => False
   end.
+Proof. vm_compute. repeat split; reflexivity. Qed.
+
+(* a breakpoint acknowledged during a free run stops the machine at its next arrival there; the instruction whose check
+   had already passed when the response was sent is the only one the monitor exempts, and a machine that kept running
+   past the new breakpoint (what a thread-local copy of the list would do) is not a schedule the monitor accepts *)
+Example C19_example_setbps_during_free_run :
+  let pcf := fun c : Z => c mod 3 in          (* a three-instruction loop at addresses 0,1,2 *)
+  let tr := [S_req RConfigDone; S_start; M_read_state; M_check_bp; M_execute; M_read_state; M_check_bp;
+             S_req (RSetBps [(1, 2)]); S_set_bps;                 (* acknowledged while instruction 1 is in flight *)
+             M_execute; M_read_state; M_check_bp; M_execute; M_read_state; M_check_bp; M_execute;
+             M_read_state; M_check_bp] in               (* next arrival at address 1: stops *)
+  match run Z pcf Z.succ (fun _ => false) Z.succ Z.succ true StateHeld tr (init 0) with
+  | Some s => rs s = Stopped 1 /\ cp s = 4
+  | None => False
+  end /\
+  bp_ok_live Z pcf Z.succ (fun _ => false) Z.succ Z.succ true StateHeld tr (init 0) false false = true.
 Proof. vm_compute. repeat split; reflexivity. Qed.
